@@ -19,6 +19,7 @@ void h_prune(void)
   if (active) { n->active_uploads_.n = 1; Node__prune_stale_uploads(n, in_now); } else { n->active_uploads_.n = 0; Node__prune_stale_uploads(n, in_now); }
   _Bool stale = active && timeout > 0 && in_now - st.started_at >= timeout * NS;
   __CPROVER_assert(g_ended == (stale ? 1 : 0), "an upload is ended by the pruning pass exactly when the transfer timeout is positive and it started at least that long ago");
+  if (stale) { CANARY_AT("an upload whose transfer timeout has passed"); }
   if (stale) __CPROVER_assert(g_peer0 == st.peer_id._[0] && g_chunk0 == st.chunk_id._[0] && !g_flag, "the timed-out upload is ended for its own (peer, chunk), as unsuccessful");
   CANARY_POINT();
 }
